@@ -193,6 +193,11 @@ pub uninterp spec fn expr_type(e: &Expr, f: &Flags) -> Option<TypeLayout>;
 pub uninterp spec fn output_type(l: &TypeLayout, r: &TypeLayout, o: Op, f: &Flags) -> Option<TypeLayout>;
 #[verifier::external_body] pub fn get_output_type(l: &TypeLayout, r: &TypeLayout, o: &Op, f: &Flags) -> (res: Option<TypeLayout>) ensures res == output_type(l, r, *o, f) { unimplemented!() }
 #[verifier::external_body] pub fn clone_ty(t: &TypeLayout) -> (r: TypeLayout) ensures r == *t { unimplemented!() }
+pub uninterp spec fn compat_f(expected: TypeLayout, supplied: TypeLayout, f: Flags) -> bool;        // TypeLayout::eq_complex under the given flags
+pub trait VerifEq { fn eq_complex(&self, other: &TypeLayout, f: &Flags) -> bool; }
+impl VerifEq for TypeLayout {
+    #[verifier::external_body] fn eq_complex(&self, other: &TypeLayout, f: &Flags) -> (r: bool) ensures r == compat_f(*self, *other, *f) { unimplemented!() }
+}
 #[verifier::external_body] pub fn opt_ctx(o: Option<TypeLayout>) -> (r: Result<TypeLayout, VErr>) ensures r is Ok <==> o is Some, r is Ok ==> Some(r->Ok_0) == o { unimplemented!() }
 """
 
@@ -219,6 +224,7 @@ def build_for_type(repo):
         Rule("R1", "lookup @ Expr :: DotLookup", "Expr :: DotLookup", why="binding of the scrutinee itself"),
         Rule("R1", "index . root_ident ( )", "lhs . root_ident ( )", why="`index @ pattern` names the scrutinee"),
         Rule("R1", "lookup . root_ident ( )", "lhs . root_ident ( )", why="`lookup @ pattern` names the scrutinee"),
+        Rule("R6", "lhs . get_output_type ( & rhs , op , flags ) . with_context ( $$c ) ?", "opt_ctx ( get_output_type ( & lhs , & rhs , op , flags ) ) ?", why="operator table abstract; context text dropped"),
         Rule("R6", "lhs . get_output_type ( & rhs , op , flags ) . with_context ( $$c )", "opt_ctx ( get_output_type ( & lhs , & rhs , op , flags ) )", why="operator table abstract; context text dropped"),
         Rule("R1", "Value :: Ident", "ValueE :: Ident", why="enum renamed in the model"),
         Rule("R6", "expr_for_type ( index , flags )", "expr_for_type ( lhs , flags )", why="`index @ pattern` names the scrutinee"),
@@ -269,7 +275,9 @@ pub fn for_type_binop(lhs: &Expr, op: &Op, rhs: &Expr, flags: &Flags) -> (r: Res
         // `?=` binds a NAME: accepted only with a variable name on its left (code generation has no other case)
         (r is Ok && *op is Unwrap) ==> lhs is Value && lhs->Value_0 is Ident,
         // C03: an accepted binary operation is supported by the operator table for the operand types
-        r is Ok ==> exists|l: TypeLayout, rt: TypeLayout| #[trigger] output_type(&l, &rt, *op, flags) == Some(r->Ok_0),
+        r is Ok ==> exists|l: TypeLayout, rt: TypeLayout| #[trigger] output_type(&l, &rt, *op, flags) == Some(r->Ok_0)
+                        // C02: `x op= v` stores the result back into x, so the result must still have x's type (int += float would leave a float in an int)
+                        && (op_assigns(*op) ==> compat_f(l, r->Ok_0, *flags)),
 {{
 {txt}
 }}
